@@ -42,7 +42,7 @@ ASSUMPTIONS = [
     "kernel (a): graphs, neighbour orders and start orders are enumerated as engine decisions; this part is exhaustive exploration, not a solver verdict",
 ]
 BOUNDS = {
-    "quick": "(b) 9 graph shapes x task kinds {E,F,K} per node (<=4 tasks) x all registration orders x 6 assigned locations x all start-set orders; "
+    "quick": "(b) 9 graph shapes x task kinds {E,F,K} per node (<=4 tasks) x all registration orders x {no history, one task unregistered, one task re-bound to another input} x 6 assigned locations x all start-set orders; "
              "(a) toposort on all digraphs with N<=3 nodes, all neighbour orders, all ordered start subsets",
     "thorough": "(b) same on both builds plus 2 five-task shapes; (a) N=4 with label-order neighbours and all start subsets",
 }
@@ -157,6 +157,39 @@ def run_manager(ex, case):
             task.targets = list(task.targets)
         m.register(task)
         objs[i] = (kind, t, deps, task)
+    # optional history before the observed assignment: one task is removed or re-bound
+    pm = case.get("premut")
+    if pm is not None:
+        i = ex.choose(len(shape))
+        kind, t, deps, task = objs[i]
+        try:
+            m.unregister(task.taskid)
+        except (Abort, Inconclusive):
+            raise
+        except Exception as e:
+            ex.fail(f"unregister of task #{i} raised {type(e).__name__}: {e}")
+            return
+        del objs[i]
+        defs.pop(t, None)
+        if pm == "rebind":
+            free = [x for x in LOCS if x != t and x not in deps]
+            nd = free[ex.choose(len(free))]
+            tref = U.getref(r, t)
+            dsc = ("mul", ("loc", nd), ("const", 2))
+            nd_defs = dict(defs)
+            nd_defs[t] = dsc
+            if kind == "E":
+                task2 = xd.tasks.ExprTask(tref, U.build(dsc, r, fr))
+                defs[t] = dsc
+            else:
+                def action2(i=i, t=t, nd=nd):
+                    cnt[i] = cnt[i] + 1
+                    trace.append(i)
+                    U.setraw(d, t, ufs[i](U.getval(d, nd), 0))
+                task2 = xd.tasks.FunctionTask(f"F{i}b", action2, set(tref._get_dependencies()), set(U.getref(r, nd)._get_dependencies()))
+                kind = "F"
+            m.register(task2)
+            objs[i] = (kind, t, [nd], task2)
     # the assignment under observation
     L = case["loc"]
     aref = U.getref(r, L)
@@ -192,7 +225,7 @@ def run_manager(ex, case):
         return
     note(ex, "update_checked")
     writes = list(log.w)
-    det = {"shape": case["shape"], "kinds": "".join(kinds), "registration_order": list(perm), "assigned": L,
+    det = {"shape": case["shape"], "kinds": "".join(kinds), "registration_order": list(perm), "assigned": L, "premut": pm,
            "writes": writes, "expected_tasks": sorted(reach)}
     if not writes or writes[0] != L:
         ex.fail(f"first write of the update is {writes[:1]}, expected the assigned location {L}", det)
@@ -335,6 +368,9 @@ def cases(tier):
                     continue
                 for L in LOCS:
                     out.append({"mode": "manager", "build": b, "shape": name, "kinds": list(kinds), "loc": L})
+                    if "K" not in kinds and (tier != "quick" or n <= 3):
+                        for pm in ("unreg", "rebind"):
+                            out.append({"mode": "manager", "build": b, "shape": name, "kinds": list(kinds), "loc": L, "premut": pm})
         # kernel
         for N in (1, 2, 3):
             for bits in itertools.product([0, 1], repeat=N * N):
